@@ -897,6 +897,7 @@ def run(ctx, rep, cases=None):
         sr, sm = expand_samples(sreplies[sa:sa + m], meta)
         judge(cs, im, expand(cs, replies[a:a + n]), sr, sm, rep)
     known_stream(ctx, rep)
+    malformed_stream(ctx, rep)
     rebinding_stream(ctx, rep)
     opaque_stream(ctx, rep)
 
@@ -918,6 +919,55 @@ def known_stream(ctx, rep):
     if ea or eb or not close_lists(a, b):
         rep.fail(f"Circle(r = t + 2) with set_volume(7 t): D.volume(t = 1) = {a or ea} but D(t = 1).volume() = {b or eb}",
                  dict(stream="user-volume"), finding="user_volume_lost_on_call")
+
+
+def malformed_stream(ctx, rep):
+    """expressions the constructors reject (a parameter depends on the node's own variable, the second factor
+    of a product depends on the first, both directions) and the one `Dom.wf` excludes although the constructors
+    accept it (dependence on the product partner below a motion node): model and code must reject the same
+    inputs.  Correspondence only — malformed inputs never feed the property oracles."""
+    tp = common.use_repo()
+    import torch
+    rng = ctx.rng
+    cases = []
+    for i in range(ctx.scale(3, 12)):
+        k = lambda lo=-2, hi=2: dy(rng, lo, hi)
+        r = dy(rng, 0.5, 2)
+        circ = lambda var, dep=None: Node("circle", var, [PF([c(k()), c(k())]), PF([("+", c(r), v(*dep)) if dep else c(r)])])
+        itv = lambda var, dep=None: Node("interval", var, [PF([c(0)]), PF([("+", c(1), v(*dep)) if dep else c(1)])])
+        cases += [
+            ("own-variable:interval", itv("y", ("y", 0)), False),
+            ("own-variable:circle", circ("x", ("x", 0)), False),
+            ("product:second-depends-on-first", Node("prod", None, [], [circ("x"), itv("t", ("x", 1))]), False),
+            ("product:both-directions", Node("prod", None, [], [circ("x", ("t", 0)), itv("t", ("x", 0))]), False),
+            ("translate:vector-depends-on-own-variable", Node("translate", "x", [PF([v("x", 0), c(0)])], [circ("x")]), False),
+            ("product:dependence-below-motion", Node("prod", None, [], [Node("translate", "x", [PF([c(k()), c(k())])], [circ("x", ("t", 0))]), itv("t")]), True),
+            ("control:dependent-product", Node("prod", None, [], [circ("x", ("t", 0)), itv("t", ("D", 0))]), True),
+        ]
+    lines = [f"fv {n.tokens()} 0 0" for _, n, _ in cases]
+    replies = common.run_driver("C17", lines)
+    for (name, node, builds), rl in zip(cases, replies):
+        wf = rl.split()[5] == "1"
+        rep.count("malformed:" + name)
+        D, err = attempt(lambda: to_tp(node, tp))
+        if (err is None) != builds:
+            rep.disagree("malformed stream: constructor acceptance", dict(stream="malformed", kind=name, expression=node.tokens()),
+                         "built" if err is None else err, "expected to build" if builds else "expected to be rejected")
+            continue
+        if name.startswith("control"):
+            if not wf:
+                rep.disagree("malformed stream: Dom.wf rejects an accepted expression", dict(stream="malformed", kind=name, expression=node.tokens()), "built", "wf = false")
+            continue
+        if wf:
+            rep.disagree("malformed stream: Dom.wf accepts an expression the code cannot use", dict(stream="malformed", kind=name, expression=node.tokens()), err, "wf = true")
+        if builds:
+            # accepted by the constructors, but the membership test needs the partner coordinate in the parameter row
+            pts = mk_points(tp, torch, node, [{"x": ["0", "0"], "t": ["1/2"]}])
+            _, e1 = attempt(D._contains, pts)
+            mr = common.run_driver("C17", [f"pevals {TOL} {node.tokens()} 0 1 {env_tokens({'x': [Fr(0), Fr(0)], 't': [Fr(1, 2)]})} 0"])[0].split()[0]
+            if (e1 is None) != (mr != "none"):
+                rep.disagree("malformed stream: dependence below a motion node", dict(stream="malformed", kind=name, expression=node.tokens()),
+                             e1 or "answers", mr)
 
 
 def rebinding_stream(ctx, rep):
@@ -1016,6 +1066,9 @@ def replay(ctx, obj):
     inp = (obj.get("failing_input") or obj.get("first"))["input"]
     if inp.get("stream") == "user-volume":
         known_stream(ctx, rep)
+        return common.finish(ctx, rep, lean)
+    if inp.get("stream") == "malformed":
+        malformed_stream(ctx, rep)
         return common.finish(ctx, rep, lean)
     if inp.get("stream") == "opaque":
         opaque_stream(ctx, rep)
